@@ -243,6 +243,23 @@ impl Scenario for Relay {
             client_max_frame: 16_384,
             tunnels,
         };
+        let mut plan = plan;
+        // a megabyte through a two-byte socket buffer is tens of millions of events and gigabytes
+        // of trace for no new behaviour: a flow is at most 4000 fillings of the smallest buffer
+        // on its way
+        for t in plan.tunnels.iter_mut() {
+            let up_cap = (t.to_host_cap.min(plan.from_client_cap) as u64).saturating_mul(4000);
+            let down_cap = (t.from_host_cap.min(plan.to_client_cap) as u64).saturating_mul(4000);
+            t.up.len = t.up.len.min(up_cap);
+            t.down.len = t.down.len.min(down_cap);
+            t.fault = match t.fault.clone() {
+                FaultP::HostReadErr(at, k) => FaultP::HostReadErr(at.min(t.down.len), k),
+                FaultP::HostWriteErr(at, k) => FaultP::HostWriteErr(at.min(t.up.len), k),
+                FaultP::HostReset(at) => FaultP::HostReset(at.min(t.down.len)),
+                FaultP::ClientAbort(at) => FaultP::ClientAbort(at.min(t.up.len)),
+                x => x,
+            };
+        }
         to_plan(&plan)
     }
 
